@@ -443,6 +443,37 @@ func propC19(w *World, r *Report) {
 			r.Check(bad == "", "Q2", fn.Name()+": the ring keeps no state outside itself (no package variable, no finalizer)", pos, bad)
 		}
 	}
+	// ---- every slot is a frame of its own: the constructor fills frames[i], for every i, with a frame allocated in that
+	// very iteration (one frame hoisted out of the loop would make all slots - the whole history - the same frame)
+	{
+		ce := newTermEnv(w)
+		nFill := 0
+		for _, b := range ri.Ctor.Blocks {
+			for _, in := range b.Instrs {
+				st, ok := in.(*ssa.Store)
+				if !ok {
+					continue
+				}
+				ia, ok := st.Addr.(*ssa.IndexAddr)
+				if !ok || !typeIs(st.Val.Type(), "github.com/TheCacophonyProject/go-cptv/cptvframe", "Frame") {
+					continue
+				}
+				nFill++
+				call, isCall := st.Val.(*ssa.Call)
+				fresh := false
+				how := ce.termOf(st.Val).String()
+				if isCall {
+					if okf, _ := provablyNonNil(call, 0); okf && inLoop(call.Block()) && inLoop(b) {
+						fresh = true
+					}
+				}
+				idx := ce.termOf(ia.Index)
+				full := idx.Op == "rangeidx"
+				r.Check(fresh && full, "Q2", "constructor: every slot gets a frame allocated for it (in the filling loop, over the full range)", w.InstrPos(st), "value "+how+" ; index "+idx.String())
+			}
+		}
+		r.Check(nFill >= 1, "Q2", "constructor fills the frame slots", w.Pos(ri.Ctor.Pos()), fmt.Sprint(nFill))
+	}
 	// ---- CopyRecent
 	{
 		pis, _ := analyse(ri.methods["CopyRecent"])
